@@ -4,7 +4,7 @@
    as externals that are later equated and freed, pending list) for the operator core {atom, ~, &, >, >:, >?, <?};
    Spec/LTLUnique.v for the full operator set at the semantic level. *)
 From Coq Require Import List Bool Arith ZArith Lia.
-Require Import HT TEL LTLUnique BodyTheoryCore.
+Require Import HT TEL LTLUnique BodyTheoryCore GenPrelude TheoryPrelude FromTheory Leaf_theory.
 
 (* In every state reachable with an empty work list, for every assignment v of the auxiliary atoms that violates no
    emitted constraint and gives unresolved placeholders their external value, the literal cached for formula f at
@@ -45,7 +45,50 @@ Proof. exact C03_definitional_extension. Qed.
 Theorem C03_equations_determine_LTLf : forall (A : Type) (T : nat -> A -> bool) (h : nat) (v : LTLUnique.f A -> nat -> bool),
   LTLUnique.eqs A T h v -> forall (p : LTLUnique.f A) (k : nat), k <= h -> v p k = LTLUnique.sat A T h p k.
 Proof. exact unique. Qed.
+(* ---- tie to the source: the clause tables and guards REGENERATED from theory/{formula,body}.py ---- *)
+(* An assignment violates none of the constraints emitted for a Boolean / temporal node iff the node's literal has the
+   value of the connective applied to the literals of its arguments (pre = the literal of the inductive step). *)
+Theorem C03_boolean_clauses : forall op v, holds v (boolean_clauses_gen op) = Bool.eqb (v Llit) (bool_spec op (v Llhs) (v Lrhs)).
+Proof. exact boolean_clauses_spec. Qed.
+Theorem C03_temporal_clauses : forall op has v, holds v (tel_clauses_gen op has) = Bool.eqb (v Llit) (tel_spec op has (v Llhs) (v Lrhs) (v Lpre)).
+Proof. exact tel_clauses_spec. Qed.
+Theorem C03_equal_clauses : forall v, holds v make_equal_cl_gen = Bool.eqb (v La) (v Lb).
+Proof. exact make_equal_spec. Qed.
+(* ... and these node equations, with the regenerated case analysis on step, n and horizon, are the LTLf equations:
+   previous / next (any n, weak or strong) with the finite-trace boundary values, *)
+Theorem C03_previous_is_LTLf : forall (A : Type) (h : nat) (T : TEL.trace A) w n x k,
+  TEL.lsat A h T (TPv A w n x) k =
+  match prev_inside_gen k n, prev_target_gen k n, prev_boundary_true_gen k n w with
+  | Some true, Some t, _ => TEL.lsat A h T x (Z.to_nat t) | Some false, _, Some b => b | _, _, _ => false end.
+Proof. exact previous_case. Qed.
+Theorem C03_next_is_LTLf : forall (A : Type) (h : nat) (T : TEL.trace A) w n x k,
+  TEL.lsat A h T (TNx A w n x) k =
+  match next_inside_gen k n h, next_target_gen k n with
+  | Some true, Some t => TEL.lsat A h T x (Z.to_nat t) | Some false, _ => next_placeholder_value_gen w | _, _ => false end.
+Proof. exact next_case. Qed.
+(* until / release through the literal of `> self` / `>: self`, at every state including the last, *)
+Theorem C03_until_release_is_LTLf : forall (A : Type) (h : nat) (T : TEL.trace A) (u : bool) a b k, k <= h ->
+  TEL.lsat A h T (if u then TUn A a b else TRl A a b) k =
+  tel_spec (if u then OpUntil else OpRelease) true (TEL.lsat A h T a k) (TEL.lsat A h T b k)
+           (TEL.lsat A h T (TNx A (if u then until_future_weak_gen else release_future_weak_gen) 1 (if u then TUn A a b else TRl A a b)) k).
+Proof. exact until_release_case. Qed.
+(* since / trigger through the literal of the previous state, with the base case at state 0, *)
+Theorem C03_since_trigger_is_LTLf : forall (A : Type) (h : nat) (T : TEL.trace A) (s : bool) a b k,
+  TEL.lsat A h T (if s then TSi A a b else TTr A a b) k =
+  match telp_base_gen k, telp_pre_gen k with
+  | Some true, _ => TEL.lsat A h T b k
+  | Some false, Some p => tel_spec (if s then OpSince else OpTrigger) true (TEL.lsat A h T a k) (TEL.lsat A h T b k) (TEL.lsat A h T (if s then TSi A a b else TTr A a b) (Z.to_nat p))
+  | _, _ => false end.
+Proof. exact since_trigger_case. Qed.
+(* and the Boolean connectives. *)
+Theorem C03_boolean_is_LTLf : forall (A : Type) (h : nat) (T : TEL.trace A) op a b k,
+  TEL.lsat A h T (match op with OpAnd => TAnd A a b | OpOr => TOr A a b | OpLImp => TImp A b a | OpRImp => TImp A a b
+                              | OpEqv => TAnd A (TImp A a b) (TImp A b a) end) k = bool_spec op (TEL.lsat A h T a k) (TEL.lsat A h T b k).
+Proof. exact boolean_case. Qed.
 Print Assumptions C03_value_is_LTLf.
 Print Assumptions C03_step.
 Print Assumptions C03_definitional.
 Print Assumptions C03_equations_determine_LTLf.
+Print Assumptions C03_boolean_clauses. Print Assumptions C03_temporal_clauses. Print Assumptions C03_equal_clauses.
+Print Assumptions C03_previous_is_LTLf. Print Assumptions C03_next_is_LTLf. Print Assumptions C03_until_release_is_LTLf.
+Print Assumptions C03_since_trigger_is_LTLf. Print Assumptions C03_boolean_is_LTLf.
